@@ -43,15 +43,18 @@ ValArgs(ln, cv) ==
   ELSE {<<<<>>, <<>>>>}
 
 Dec(v) == IF v >= 900 THEN 899 - v ELSE v      \* cfg files cannot hold negative numbers: 900 = none, 901 = '*', 902 = '.' alone
-Init == st \in {[fn |-> "init", f |-> fn, cv |-> cv] : fn \in Fns, cv \in Convs}
+\* (flag set and width are part of the initial state only to spread TLC's work: all successors of one state are computed by one worker)
+Init == st \in {[fn |-> "init", f |-> fn, cv |-> cv, fi |-> fi, w |-> w] : fn \in Fns, cv \in Convs, fi \in FlagSets, w \in {Dec(v) : v \in Widths}}
 
 (* shapes: 1 = <dir>   2 = "a" <dir> "n"   3 = "%%" <dir>   4 = <dir> " %d"   5 = "%%" <text of dir without its %> *)
 Build(shape, d) == CASE shape = 1 -> d [] shape = 2 -> <<97>> \o d \o <<110>> [] shape = 3 -> <<37, 37>> \o d [] shape = 4 -> d \o <<32, 37, 100>>
                      [] shape = 5 -> <<37, 37>> \o Tail(d)         \* an escaped percent followed by the directive's text: all literals
 Next ==
   /\ st.fn = "init"
-  /\ \E fi \in FlagSets, w \in {Dec(v) : v \in Widths}, p \in {Dec(v) : v \in Precs}, ln \in Lens, shape \in Shapes, loc \in {0, 1}, rel \in {0, 1, 3} :
+  /\ \E p \in {Dec(v) : v \in Precs}, ln \in Lens, shape \in Shapes, loc \in {0, 1}, rel \in {0, 1, 3} :
        LET cv == st.cv
+           fi == st.fi
+           w  == st.w
            d  == DirSeq(fi, w, p, ln, cv)
        IN \E sw \in StarArgs(w, IF p = -2 THEN -2 ELSE -1), sp \in (IF p = -2 THEN {<<<<1>>, <<3, 0, 0, 0>>>>, <<<<1>>, <<65535, 65535, 65535, 65535>>>>} ELSE {<<<<>>, <<>>>>}),
              va \in ValArgs(ln, cv) :
@@ -77,7 +80,7 @@ ScanNHas == <<TRUE, TRUE, TRUE, TRUE, TRUE, FALSE, FALSE, FALSE, TRUE, TRUE>>
 ScanNInp == << <<>>, <<>>, <<>>, <<>>, <<>>, <<>>, <<37, 110>>, <<110>>, <<>>, <<>> >>
 ScanPost == << <<>>, <<32, 37, 100>> >>
 NextScan ==
-  /\ st.fn = "init" /\ st.cv = 110
+  /\ st.fn = "init" /\ st.cv = 110 /\ st.fi = 0 /\ st.w = -1
   /\ \E a \in 1..Len(ScanPre), b \in 1..Len(ScanN), c \in 1..Len(ScanPost) :
        LET fmt == ScanPre[a] \o ScanN[b] \o ScanPost[c]
            inp == ScanPreInp[a] \o ScanNInp[b] \o (IF c = 2 THEN <<32, 53>> ELSE <<>>)
